@@ -17,6 +17,9 @@ import Kap.Proofs.C18
 namespace Kap.Props.C18
 open Kap.C18
 
+/-- A float codec that knows no float (for examples without float fields). -/
+def exF0 : FloatCodec := { fmt := fun _ => [], parse := fun _ => none }
+
 /-! ### Stream framing (`WritePointForRecording` / `readPointsFromIO`'s Scanner loop) -/
 
 /-- **framing_roundtrip (⇐)**: frames with clean components are read back exactly, without error. -/
@@ -127,6 +130,21 @@ theorem value_roundtrip (F : FloatCodec) (v : FV)
 example : FloatLaw ⟨fun b => if b = 0x3ff8000000000000 then [49, 46, 53] else [],
                     fun s => if s = [49, 46, 53] then some 0x3ff8000000000000 else none⟩ 0x3ff8000000000000 := by
   refine ⟨⟨49, [46, 53], by decide, by decide⟩, by decide, by decide, by decide⟩
+
+/-- **Names survive the escaping**: measurement (`EscapeMeasurement ∘ unescapeMeasurement` / `unescapeMeasurement`),
+tag keys and values (`escapeTag` / `unescapeTag`) and field keys (`escape.String` / `escape.UnescapeString`) come back
+unchanged for EVERY backslash-free byte string — commas, spaces, `=`, quotes, unicode, control characters. -/
+theorem name_escape_roundtrip (s : Bytes) (h : BS ∉ s) :
+    unescMeas (escMeas (unescMeas s)) = s ∧ unescTag (escTag s) = s ∧ unescKey (escKey s) = s :=
+  ⟨unescMeas_escMeas s h, unescTag_escTag s h, unescKey_escKey s h⟩
+
+/-- Counterexample (finding `stream-backslash-name`): the hypothesis is needed. The measurement `a\,b` is written
+as `a\,b` (`MakeKey` unescapes first) and read back as `a,b`; a tag value ending in a backslash swallows the
+separator and the line no longer parses. -/
+theorem backslash_name_not_representable :
+    unescMeas (escMeas (unescMeas [97, 92, 44, 98])) = [97, 44, 98] ∧
+    parseLine exF0 1 (lineOf exF0 1 ⟨[100], [114], [109], [([107], [97, 92])], [([118], .int 1)], 5⟩) = .error := by
+  decide
 
 /-- A line feed reaches the recorded line only from the point's own strings (measurement, tag keys/values, field
 keys, string field values): the escaping functions never add or remove one, numbers and booleans have none. So the
